@@ -107,7 +107,7 @@ static arr_cmplx zadoff_chu(int L, int u) {
 }
 static arr_cmplx m_sequence(int k) {
     //x^k + x^t + 1 primitive trinomials / known taps
-    const int taps[10] = {0, 0, 0, 0, 0, 2, 1, 1, 0, 4};   //k=5: x^5+x^2+1, 6: x^6+x+1, 7: x^7+x+1, 9: x^9+x^4+1
+    const int taps[11] = {0, 0, 0, 0, 0, 2, 1, 1, 0, 4, 3};   //k=5: x^5+x^2+1, 6: x^6+x+1, 7: x^7+x+1, 9: x^9+x^4+1, 10: x^10+x^3+1
     const int L = (1 << k) - 1;
     std::vector<int> reg(k, 1);
     arr_cmplx h(L);
@@ -241,7 +241,11 @@ int main(int argc, char** argv) {
     const bool thorough = vh::g.thorough();
     uint64_t idx = 0;
     //shortest signals: every shift in [-len/4, len/4]
-    for (int len : {128, 129, 200}) {
+    std::vector<int> exlens = {128, 129, 200};
+    if (thorough) {
+        exlens = {128, 129, 130, 131, 160, 200, 255, 256, 257, 400, 512, 1000};
+    }
+    for (int len : exlens) {
         for (int d = -len / 4; d <= len / 4; ++d) {
             if (!vh::mine(idx++)) {
                 continue;
@@ -255,7 +259,7 @@ int main(int argc, char** argv) {
     }
     //longer signals: sampled shifts
     {
-        const int cnt = thorough ? 600 : 100;
+        const int cnt = thorough ? 6000 : 300;
         for (int t = 0; t < cnt; ++t) {
             if (!vh::mine(idx++)) {
                 continue;
@@ -267,10 +271,10 @@ int main(int argc, char** argv) {
             check_finddelay(len, d, t % 3 == 0, (t % 2) ? 1e9 : r.uni(30, 80), fs, r);
         }
     }
-    vh::sample("finddelay/gccphat: white signals of 128, 129, 200 samples, every shift in [-len/4, len/4], noiseless and with noise 30..60 dB below, real and complex; longer signals with sampled shifts");
+    vh::sample("finddelay/gccphat: white signals of 128, 129, 200 samples (thorough: 12 lengths to 1000), every shift in [-len/4, len/4], noiseless and with noise 30..60 dB below, real and complex; longer signals with sampled shifts");
     if (vh::mine(idx++)) {
         vh::Rng r = vh::rng_for("peakloc");
-        for (int t = 0; t < (thorough ? 5000 : 800); ++t) {
+        for (int t = 0; t < (thorough ? 200000 : 5000); ++t) {
             check_peakloc(r);
         }
     }
@@ -283,6 +287,12 @@ int main(int argc, char** argv) {
     std::vector<P> pre = {{"zadoff-chu(17,u=3)", zadoff_chu(17, 3)},   {"zadoff-chu(16,u=1)", zadoff_chu(16, 1)},   {"zadoff-chu(63,u=5)", zadoff_chu(63, 5)}, {"zadoff-chu(128,u=3)", zadoff_chu(128, 3)},
                           {"zadoff-chu(353,u=7)", zadoff_chu(353, 7)}, {"zadoff-chu(512,u=5)", zadoff_chu(512, 5)}, {"m-sequence(31)", m_sequence(5)},         {"m-sequence(63)", m_sequence(6)},
                           {"m-sequence(127)", m_sequence(7)},          {"m-sequence(511)", m_sequence(9)}};
+    if (thorough) {
+        for (auto [n, u] : std::vector<std::pair<int, int>>{{31, 2}, {64, 7}, {100, 3}, {127, 11}, {139, 25}, {199, 2}, {256, 9}, {839, 129}}) {
+            pre.push_back({vh::fmt("zadoff-chu(%d,u=%d)", n, u), zadoff_chu(n, u)});
+        }
+        pre.push_back({"m-sequence(1023)", m_sequence(10)});
+    }
     for (size_t pi = 0; pi < pre.size(); ++pi) {
         dl::PreambleDetector probe(pre[pi].h, 0.5);
         const int F = probe.frame_len();
@@ -304,12 +314,14 @@ int main(int argc, char** argv) {
                 continue;
             }
             vh::Rng r = vh::rng_for("det", pi * 100000 + off);
-            const double thr = r.uni(0.3, 0.9);
-            const double amp = r.uni(-70, 20);
-            const double noise = r.uni(30, 60);
-            check_detector(pre[pi].h, pre[pi].name.c_str(), thr, off, amp, noise, true, r);
-            if (off % 5 == 0) {
-                check_detector(pre[pi].h, pre[pi].name.c_str(), r.uni(0.6, 0.9), off, amp, noise, false, r);
+            for (int rep = 0; rep < (thorough ? 8 : 2); ++rep) {
+                const double thr = r.uni(0.3, 0.9);
+                const double amp = r.uni(-70, 20);
+                const double noise = r.uni(30, 60);
+                check_detector(pre[pi].h, pre[pi].name.c_str(), thr, off, amp, noise, true, r);
+                if (off % 5 == 0) {
+                    check_detector(pre[pi].h, pre[pi].name.c_str(), r.uni(0.6, 0.9), off, amp, noise, false, r);
+                }
             }
         }
     }
